@@ -48,6 +48,8 @@ def main():
     if os.path.exists(os.path.join(src, "notes.json")):
         notes = json.load(open(os.path.join(src, "notes.json")))
     for fn in glob.glob(os.path.join(src, "**"), recursive=True):
+        if os.path.abspath(src) == os.path.abspath(dst):
+            break  # re-evaluation of an already stored seed
         if os.path.isfile(fn) and os.path.basename(fn) != "go.mod":
             rel = os.path.relpath(fn, src)
             os.makedirs(os.path.dirname(os.path.join(dst, rel)) or dst, exist_ok=True)
